@@ -951,8 +951,10 @@ def run_opt_case(case, rep):
         rep.count(f"optimum_{which}")
         tag = "duplicate-constraint-names" if duplicate else "plain"
         if res.f_opt is None or res.x_opt is None or len(res.x_opt) == 0:
-            rep.violation(f"C17:opt:{which}:no-optimum-returned:{tag}", "optimum", case,
-                          observed={"form": key, "message": str(res.message), "is_feasible": bool(res.is_feasible),
+            # with duplicate constraint names this is one more symptom of the recorded mechanism: same signature
+            what = "optimum-differs-from-reference" if duplicate else "no-optimum-returned"
+            rep.violation(f"C17:opt:{which}:{what}:{tag}", "optimum", case,
+                          observed={"form": key, "x_opt": None, "f_opt": None, "message": str(res.message), "is_feasible": bool(res.is_feasible),
                                     "iterations": n_iter, "constraint_names": cnames},
                           expected={"x_opt": ref["x"], "f_opt": ref["f"]})
             continue
